@@ -208,6 +208,9 @@ func (c *C10Case) cliArgsSeed(seed int64) (args []string, files map[string]strin
 		args = []string{"shuffle", "rogue", "-n", f(c.A), "-l", f(c.B), "--rogue-file", "rogues.txt"}
 	case "bootstrap":
 		args = []string{"build", "seqboot", "-n", "2", "-o", "boot"}
+		if c.A > 0 {
+			args = append(args, "-f", f(c.A))
+		}
 	case "sample":
 		args = []string{"sample", "seqs", "-n", fmt.Sprint(c.N)}
 	case "subalign-window":
@@ -344,7 +347,33 @@ func (c *C10Case) runCLIKind(ctx *Ctx, o *Outcome, fail func(string, string, ...
 	}
 	o.Add("cli_replays_identical", 1)
 	if c.Op == "bootstrap" {
-		return // writes one file per replicate; its invariants are evaluated on the library call
+		// one file per replicate: each is held to the invariant of a bootstrap sample
+		for k := 0; k < 2; k++ {
+			name := fmt.Sprintf("boot%d.fa", k)
+			b, ok := a.files[name]
+			if !ok {
+				fail("invariant:missing-replicate:cli", "goalign %s succeeds and leaves no %s (files: %d)", strings.Join(args, " "), name, len(a.files))
+				return
+			}
+			var res opResult
+			res.names, res.seqs = parseFastaText(b)
+			for i := range res.names {
+				res.rows = append(res.rows, res.names[i]+":"+res.seqs[i])
+			}
+			if len(res.names) == 0 {
+				if f := c.A; f > 0 && f <= 1 && int(f*float64(len(c.Aln.Seqs[0]))) == 0 {
+					continue // a sample of no column at all: nothing to write
+				}
+				fail("invariant:empty-output:cli", "goalign %s: %s holds no alignment", strings.Join(args, " "), name)
+				return
+			}
+			if cl, msg := c.invariant(&res); cl != "" {
+				fail("invariant:"+cl+":cli", "goalign %s: %s: %s\nresult: %s", strings.Join(args, " "), name, msg, res.key())
+				return
+			}
+		}
+		o.Add("cli_invariant_checked", 1)
+		return
 	}
 	res := c.cliResult(a)
 	if len(res.names) == 0 {
